@@ -42,10 +42,15 @@ func sameType(a, b ast.Type) bool {
 	return toJSON(stripKey(stripTrails(toGeneric(a), nil), "Default")) == toJSON(stripKey(stripTrails(toGeneric(b), nil), "Default"))
 }
 
-// sameTypeLoose: sameType, nullability aside.
+// sameTypeLoose: sameType, nullability aside, and whether a scalar is a constant aside
+// (an argument of type string assigned to a field that is the constant "fixed" has the
+// field's type; that the field admits one value only is not a typing matter).
 func sameTypeLoose(a, b ast.Type) bool {
 	a.Nullable, b.Nullable = false, false
-	return sameType(a, b)
+	strip := func(t ast.Type) string {
+		return toJSON(stripKey(stripKey(stripTrails(toGeneric(t), nil), "Default"), "Value"))
+	}
+	return strip(a) == strip(b)
 }
 
 func stripKey(v any, key string) any {
